@@ -235,6 +235,14 @@ fn step(white: bool, kind: u8, mode: u8) {
         let sq = Bitboard(rf::bit(s));
         assert!(board.is_occupied(sq) == board.get(sq).is_some(), "is_occupied agrees with get");
         assert!(board.get(sq).is_some() == (y.occ() & rf::bit(s) != 0));
+        // ... and the state reached by undoing the move satisfies the invariant again (generation, annotation
+        // and search walk back through it)
+        em.undo(&mut board).unwrap();
+        let z = board.verif_raw();
+        assert!(rf::rep_inv(&z, white), "the state reached by undo satisfies the representation invariant");
+        let (zw, zb) = board.verif_summaries();
+        assert!(zw == z.occ_w() && zb == z.occ_b(), "occupancy summaries agree after undo");
+        assert!(board.get(sq).is_some() == (z.occ() & rf::bit(s) != 0), "per-square contents agree after undo");
     }
 
     if mode == M_C16 {
@@ -775,4 +783,84 @@ fn c02_sep_replace_piece() {
     board.put(sq, piece_of(k as usize), c).unwrap();
     assert!(board.current_position_hash() != h0);
     core::mem::forget(board);
+}
+
+// -------------------------------------------------------------------------------------------------
+// vacuity witnesses (must come back FAILED on exactly the final assert)
+
+#[kani::proof]
+#[kani::unwind(8)]
+fn witness_h3() {
+    h3(2);
+    assert!(false, "vacuity witness");
+}
+
+#[kani::proof]
+#[kani::unwind(8)]
+fn witness_c12_put_remove() {
+    c12_put_remove_step();
+    assert!(false, "vacuity witness");
+}
+
+// -------------------------------------------------------------------------------------------------
+// C02.hist: histories as symbolic variables. Two boards start from the standard position; each plays a
+// symbolic sequence of 3 Legalish pawn / knight moves through the real apply. Whenever the two end in the
+// same placement with the same rights: keys equal <=> en-passant targets equal.
+
+fn start_raw() -> Raw {
+    Raw {
+        w: [0xFF00, 0x42, 0x24, 0x81, 0x08, 0x10],
+        b: [0x00FF_0000_0000_0000, 0x4200_0000_0000_0000, 0x2400_0000_0000_0000, 0x8100_0000_0000_0000, 0x0800_0000_0000_0000, 0x1000_0000_0000_0000],
+        ep: 0,
+        rights: 15,
+    }
+}
+
+fn sym_quiet_move(board: &Board, white: bool) -> ChessMove {
+    let x = board.verif_raw();
+    let m = any_rmove(0);
+    kani::assume(rf::legalish(&x, white, &m));
+    // pawn pushes and knight jumps onto empty squares only (keeps the query within reach)
+    let k = rf::kind_at(x.own(white), rf::bit(m.from));
+    kani::assume((k == rf::P || k == rf::N) && x.occ() & rf::bit(m.to) == 0);
+    engine_move(&x, white, &m)
+}
+
+fn c02_hist(plies: usize) {
+    let s = start_raw();
+    let a = Aux { ep_prefix: 0, rights_prefix: 15, half: [0, 0], full: 1, hash: 0, max_seen: [1, 1], turn_white: true };
+    let mut b1 = Board::verif_from_raw(&s, &a);
+    let mut b2 = Board::verif_from_raw(&s, &a);
+    let mut ply = 0;
+    while ply < plies {
+        let white = ply % 2 == 0;
+        let m1 = sym_quiet_move(&b1, white);
+        m1.apply(&mut b1).unwrap();
+        let m2 = sym_quiet_move(&b2, white);
+        m2.apply(&mut b2).unwrap();
+        ply += 1;
+    }
+    let r1 = b1.verif_raw();
+    let r2 = b2.verif_raw();
+    let mut same = r1.rights == r2.rights;
+    let mut i = 0;
+    while i < 6 {
+        same &= r1.w[i] == r2.w[i] && r1.b[i] == r2.b[i];
+        i += 1;
+    }
+    if same {
+        kani::cover!(r1.ep != r2.ep, "same placement reached with different en-passant possibilities");
+        assert!(
+            (r1.ep == r2.ep) == (b1.current_position_hash() == b2.current_position_hash()),
+            "equal placement and rights: keys equal exactly when the en-passant targets are equal"
+        );
+    }
+    core::mem::forget(b1);
+    core::mem::forget(b2);
+}
+
+#[kani::proof]
+#[kani::unwind(8)]
+fn c02_hist_3ply() {
+    c02_hist(3);
 }
